@@ -20,7 +20,7 @@
 //!   tcall t_cbor_app failapp <json> <errjson>
 //!   canned <hexfn> <status> <body> <arg>-> result of run_client on a canned response ## ok|fail status-rule
 //!   rawreq <hexfn> <METHOD> <query|none> <body> -> <status> <body>                ## ok|fail server-response
-//!   stream text|bytes <chunk,chunk,..|none>  -> items seen by the caller          ## ok|fail text-stream-split-scalar
+//!   stream text|bytes <chunk,chunk,..|none>  -> items seen by the caller          ## ok|fail text-stream
 //!  (c) corruption (testing)
 //!   corrupth <hexfn> req|res <mut> <arg>-> result                                 ## ok|fail panic
 //!   corrupt <typedfn> req|res <mut> echo|fail.. (as tcall) -> done               ## ok|fail panic
@@ -887,7 +887,8 @@ const TYPED: &[&str] = &[
     "t_rkyv", "t_serdelite", "t_patchjson", "t_putcbor", "t_json_cbor", "t_geturl_rkyv", "t_postcard_msgpack",
 ];
 /// input encodings whose client and server halves disagree on where the arguments travel
-const SLOT_MISMATCH: &[&str] = &["t_patchurl", "t_puturl"];
+/// (none since the repair of F-C13-1; before it: t_patchurl, t_puturl)
+const SLOT_MISMATCH: &[&str] = &[];
 
 /// the arguments of a `tcall`/`corrupt` op after the function name
 enum TMode {
@@ -1227,7 +1228,7 @@ fn op(line: &str) -> String {
                             format!(
                                 "{} ## {}",
                                 show_items(&r),
-                                if good { "ok" } else { "fail text-stream-split-scalar" }
+                                if good { "ok" } else { "fail text-stream" }
                             )
                         }
                         (Err(e), _) => format!("err {} ## fail pipeline", show_err(&e)),
